@@ -1,12 +1,13 @@
 SPECIFICATION Spec
 CONSTANTS
   Alphabet = {97, 98, 13, 10}
-  MaxStream = 5
+  MaxStream = 4
   MaxChunk = 2
   ReadIds = {1, 3, 4, 7, 10, 11, 12, 13, 14, 15, 16, 17, 18, 19}
   WriteLens = {}
   MaxWrites = 0
   Grants = {}
+  MaxCredit = 12
   Mwbs = {0}
   Ccs = {1}
   Conns = {0}
